@@ -173,6 +173,11 @@ class UnitDefinition(PintParsedStatement, definitions.UnitDefinition):
             converter = value
             modifiers = {}
 
+        if not converter.strip():
+            return common.DefinitionSyntaxError(
+                f"Unit definition ('{name}') has no value before the first '=' or ';'"
+            )
+
         converter = config.to_scaled_units_container(converter)
 
         try:
